@@ -1,11 +1,19 @@
 #!/bin/sh
-# Build the framework from files on disk only (offline): the libocca variants and the engines.
+# Build the framework from files on disk only (offline): the three libocca variants (plain, asan, tsi)
+# from /repo's working tree and the engines, under /verif/_work.  Every check repeats the incremental
+# build itself, so this only front-loads the cold builds.
 set -e
 cd "$(dirname "$0")"
 python3 - <<'PY'
 import sys
 sys.path.insert(0, '.')
-from lib import procsim
+from lib import procsim, hcheck, tcheck, kcheck
 procsim.ensure_engine()
+hcheck.ensure_engine()
+tcheck.ensure_engine()
+kcheck.ensure_engine()
+# warm the harness kernel cache (real compiler, once) by starting the fork servers
+hcheck.server().start(); hcheck.server().stop()
+s = tcheck.Server("setup"); s.start(); s.proc.stdin.write("QUIT\n"); s.proc.stdin.flush(); s.proc.wait()
 PY
 echo "setup done"
